@@ -10,7 +10,12 @@
 //          proto_dkg.go      runTrustedDealer, runGennaro, runCanetti (+ runner variants)
 //          proto_sign.go     runDKLs23 (bbot|softspoken), runLindell22 (vanilla|bip340|mina),
 //                            runBoldyreva, runLindell17DKG / runLindell17Deal / runLindell17Sign
-//          proto_epoch.go    runHJKY (zero sharing), runRedistribute (refresh/recover/redistribute)
+//          proto_epoch.go    runHJKY (zero sharing), runRedistribute (refresh/recover/redistribute),
+//                            runLindell17Deal / runLindell17Sign
+//          proto_types.go    short names of the concrete point/field/scalar types per curve
+//          proto_selftest.go `harness PROTO`: runs everything once, prints wall time and classes
+//          c03.go            genIDs / genSpec (random access structures with arbitrary IDs), runJobs
+//                            (parallel cases, deterministic emission order) — reusable by consumers
 //
 // API (all generic over the group/curve exactly where the library is):
 //
@@ -40,7 +45,7 @@
 //        Net.RoundStatus  []map[ID]string   per executed round: class per party
 //        Net.Status       map[ID]string     final class per party (first non-ok, else ok)
 //        Net.Reads        []map[ID]int64    bytes each party drew from its reader in that round
-//        Net.FailedRound  0 if every round of every party was ok
+//        Net.FailedRound  0 if every round of every party was ok; -1 if a constructor (or runner) failed
 //        Net.Rng(id)      the party's counting reader (*CountingReader{N})
 //      classes: ok | abort | abort-blame:<sorted,ids> | err:<root-sentinel> | panic | hang
 //      After a round in which some party is not ok the run stops (later rounds are not executed).
@@ -63,8 +68,18 @@
 //   runLindell22(variant, …) → *SchnorrResult ; runBoldyreva(…) ; runLindell17*(…) ; runHJKY ; runRedistribute
 //   (see the headers of the other proto_*.go files)
 //
-// TIMES (this sandbox, purego, one run, 3 parties unless noted):
-//   see the table at the top of proto_sign.go / proto_dkg.go (measured by `harness PROTO`).
+// TIMES (this sandbox, purego, one run, unloaded machine; `harness PROTO [quick|thorough]` re-measures):
+//   session 3 parties 2 ms | trusted dealer k256 40 ms | Gennaro k256 th2of3 120 ms, BLS G1 cnf/4 1.6 s,
+//   BLS G2 th2of3 6 s | Canetti k256 50 ms, ed25519 hier/5 0.6 s | runners ≈ same
+//   DKLs23 softspoken 2 parties 0.8 s; DKLs23 bbot 2 parties 9 s, 3 parties 23 s (!)
+//   Lindell22 40–90 ms | Boldyreva short 0.5 s, long 1.3 s | HJKY / redistribute: see proto_epoch.go
+//   Lindell17: the library insists on ≥ 3072-bit Paillier keys outside `go test` (tens of seconds per
+//   key): only in `harness PROTO thorough`.  CGGMP21 is not wrapped (keygen ≈ 170 s in the repo's tests).
+//
+// KNOWN LIBRARY BEHAVIOUR met while building this layer (see c03.go): cnf.InducedMSP panics for holder
+// IDs > 64; a CNF holder that is in every maximal unqualified set gets no MSP row (the trusted dealer
+// returns no shard for it, honest Canetti aborts blaming an honest party); hierarchical structures
+// need ascending IDs per level and a threshold ≥ 2.
 
 package main
 
@@ -749,6 +764,9 @@ func stepAll[P any, O any](n *Net, round int, parts map[ID]P, f func(id ID, p P)
 	}
 	if !all && n.FailedRound == 0 {
 		n.FailedRound = round
+		if round == 0 {
+			n.FailedRound = -1 // a constructor failed
+		}
 	}
 	n.mu.Unlock()
 	return outs, all
@@ -1025,6 +1043,25 @@ func vvPoints[G any](m interface {
 		out[i], _ = m.Get(i, 0)
 	}
 	return out
+}
+
+// Refused reports that the library declined the configuration with an ordinary error before any
+// message was received (constructor or round 1), as opposed to aborting, panicking or hanging.
+func (n *Net) Refused() bool {
+	if n.FailedRound != -1 && n.FailedRound != 1 {
+		return false
+	}
+	bad := 0
+	for _, s := range n.Status {
+		if s == "ok" {
+			continue
+		}
+		if !strings.HasPrefix(s, "err:") {
+			return false
+		}
+		bad++
+	}
+	return bad > 0
 }
 
 // statusSummary renders the per-round classes, for notes: "r1:ok r2:2=abort-blame:1".
